@@ -132,6 +132,7 @@ def fireTmplEv (self : Nat) (ev : Ev) (target : Option Chan) (prio : Int) : M Na
 
 /-- `BaseComponent.register(parent)` -/
 def register (fuel : Nat) (c p : Nat) : M Unit := do
+  if !((← get).admissible c p) then throw .inadmissible
   let pc ← getComp p
   modComp c fun x => { x with parent := p, root := pc.root }
   if p != c then
